@@ -28,6 +28,7 @@ import (
 
 	"go.minekube.com/gate/pkg/edition/java/auth"
 	"go.minekube.com/gate/pkg/edition/java/config"
+	liteconfig "go.minekube.com/gate/pkg/edition/java/lite/config"
 	"go.minekube.com/gate/pkg/edition/java/proxy/zzverif/bfs"
 	"go.minekube.com/gate/pkg/edition/java/proxy/zzverif/e2e"
 	"go.minekube.com/gate/pkg/edition/java/proxy/zzverif/vrt"
@@ -51,6 +52,9 @@ type pop struct {
 	Addr  int   `json:"addr"`
 	N     int   `json:"n"`
 	Login bool  `json:"login"`
+	// Transfer: the login arrives with the "transfer" intent (next state 3, clients >= 1.20.5;
+	// acceptTransfers is on): it is a login like any other for the login quota
+	Transfer bool `json:"transfer,omitempty"`
 }
 
 // remote addresses as the listener reports them; groups: A = {0,1,2}, B = {3,4}, C = {5}
@@ -60,6 +64,9 @@ func (o pop) String() string {
 	k := "connect"
 	if o.Login {
 		k = "connect+login"
+	}
+	if o.Transfer {
+		k = "connect+transfer-login"
 	}
 	return fmt.Sprintf("+%dns:%dx%s(%s)", o.Dt, o.N, k, c34Remotes[o.Addr])
 }
@@ -81,12 +88,15 @@ func c34Group(remote string) string {
 type pcfg struct {
 	Name        string
 	Conn, Login config.QuotaSettings
+	// Lite: the proxy runs in Lite mode (connections only: a Lite login is piped to a backend)
+	Lite bool
 }
 
 var pcfgs = []pcfg{
-	{"proxy-conn-0.5ps-burst2+login-0.5ps-burst1", config.QuotaSettings{Enabled: true, OPS: 0.5, Burst: 2, MaxEntries: 100}, config.QuotaSettings{Enabled: true, OPS: 0.5, Burst: 1, MaxEntries: 100}},
-	{"proxy-conn-off+login-0.5ps-burst2", config.QuotaSettings{Enabled: false, OPS: 0.5, Burst: 1, MaxEntries: 100}, config.QuotaSettings{Enabled: true, OPS: 0.5, Burst: 2, MaxEntries: 100}},
-	{"proxy-both-off", config.QuotaSettings{Enabled: false, OPS: 0.5, Burst: 1, MaxEntries: 100}, config.QuotaSettings{Enabled: false, OPS: 0.5, Burst: 1, MaxEntries: 100}},
+	{"proxy-conn-0.5ps-burst2+login-0.5ps-burst1", config.QuotaSettings{Enabled: true, OPS: 0.5, Burst: 2, MaxEntries: 100}, config.QuotaSettings{Enabled: true, OPS: 0.5, Burst: 1, MaxEntries: 100}, false},
+	{"proxy-conn-off+login-0.5ps-burst2", config.QuotaSettings{Enabled: false, OPS: 0.5, Burst: 1, MaxEntries: 100}, config.QuotaSettings{Enabled: true, OPS: 0.5, Burst: 2, MaxEntries: 100}, false},
+	{"proxy-both-off", config.QuotaSettings{Enabled: false, OPS: 0.5, Burst: 1, MaxEntries: 100}, config.QuotaSettings{Enabled: false, OPS: 0.5, Burst: 1, MaxEntries: 100}, false},
+	{"proxy-lite-conn-0.5ps-burst2", config.QuotaSettings{Enabled: true, OPS: 0.5, Burst: 2, MaxEntries: 100}, config.QuotaSettings{Enabled: true, OPS: 0.5, Burst: 1, MaxEntries: 100}, true},
 }
 
 func (c pcfg) ops() []pop {
@@ -94,16 +104,24 @@ func (c pcfg) ops() []pop {
 	var ops []pop
 	for _, dt := range []int64{0, period - 1, period + 1, 4 * period} {
 		for a := range c34Remotes {
-			ops = append(ops, pop{dt, a, 1, true})
+			ops = append(ops, pop{Dt: dt, Addr: a, N: 1, Login: !c.Lite})
 		}
-		ops = append(ops, pop{dt, 0, 3, false}, pop{dt, 0, 3, true}, pop{dt, 3, 3, true})
+		ops = append(ops, pop{Dt: dt, Addr: 0, N: 3})
+		if !c.Lite {
+			ops = append(ops, pop{Dt: dt, Addr: 0, N: 3, Login: true}, pop{Dt: dt, Addr: 3, N: 3, Login: true},
+				pop{Dt: dt, Addr: 1, N: 1, Login: true, Transfer: true}, pop{Dt: dt, Addr: 3, N: 2, Login: true, Transfer: true})
+		}
 	}
 	return ops
 }
 
 func c34Handshake(next int32) []byte {
 	p := e2e.PutVarInt(nil, 0)
-	p = e2e.PutVarInt(p, 764) // 1.20.2
+	protocol := int32(764) // 1.20.2
+	if next == 3 {
+		protocol = 767 // 1.21: knows the transfer intent
+	}
+	p = e2e.PutVarInt(p, protocol)
 	host := "mc.example.com"
 	p = e2e.PutVarInt(p, int32(len(host)))
 	p = append(p, host...)
@@ -151,6 +169,11 @@ func runProxyQuota(t *testing.T, c pcfg, h []pop) (out bfs.Outcome) {
 		cfg.ForcedHosts = map[string][]string{}
 		cfg.Quota.Connections = c.Conn
 		cfg.Quota.Logins = c.Login
+		cfg.AcceptTransfers = true
+		if c.Lite {
+			cfg.Lite.Enabled = true
+			cfg.Lite.Routes = []liteconfig.Route{{Host: []string{"*"}, Backend: []string{"127.0.0.1:1"}}}
+		}
 		p, err := New(Options{Config: &cfg, EventMgr: event.New(), Authenticator: c34Auth{}})
 		if err == nil {
 			err = p.init()
@@ -208,7 +231,11 @@ func runProxyQuota(t *testing.T, c pcfg, h []pop) (out bfs.Outcome) {
 				if !o.Login {
 					continue
 				}
-				conn.Inject(c34Handshake(2))
+				next := int32(2)
+				if o.Transfer {
+					next = 3
+				}
+				conn.Inject(c34Handshake(next))
 				synctest.Wait()
 				kicked := conn.ClosedByProxy()
 				switch {
